@@ -423,4 +423,13 @@ static std::string dispatch(const std::string &op, const Args &a)
     exit(2);
 }
 
-int main(int argc, char **argv) { return run_main(argc, argv, dispatch); }
+static std::string fmt_probe()
+{
+    std::ostringstream o;
+    o << hex(ST::format("{}|{>8}|{x}|{.3f}|{c}|{_*<6}", ST_LITERAL("text"), "right", 48879, 3.14159, 0x20ac, true));
+    std::ostringstream os; ST::writef(os, "{}-{05}", "w", 42); o << "|" << os.str();
+    ST::string_stream ss; ss << "s" << 12345 << ' ' << 1.5 << u"\u00e9"; o << "|" << hex(ss.to_string());
+    return o.str();
+}
+
+int main(int argc, char **argv) { vh::g_probe = fmt_probe; return run_main(argc, argv, dispatch); }
